@@ -82,6 +82,34 @@ class ProjGen:
         self.files.append(f)
         return p, f
 
+    SENTINEL = {'path': 'sentinel/secret.txt', 'content': 'SECRET', 'mode': 0o600, 'mtime': 1400000000}
+
+    def new_alias(self, srcs, sub):
+        """a source that is a symbolic link: to a sibling source of the same rule (relative) or to a file outside the
+        source tree and outside DESTDIR (absolute).  Returned like new_file(): (path, attributes of the TARGET + 'link')."""
+        rng = self.rng
+        cands = [(p, f) for p, f in srcs if f.get('link') is None]
+        if cands and rng.random() < 0.7:
+            tp, tf = rng.choice(cands)
+            base = os.path.dirname(tp)
+            target, tcontent, tmode = os.path.basename(tp), tf['content'], tf['mode']
+        else:
+            base = rng.choice(['', 'sd'])
+            target, tcontent, tmode = '@ROOT@/' + self.SENTINEL['path'], self.SENTINEL['content'], self.SENTINEL['mode']
+        p = os.path.join(base, self.fresh('alias')) if base else self.fresh('alias')
+        self.files.append({'path': os.path.join(sub, p) if sub else p, 'link': target})
+        return p, {'link': target, 'content': tcontent, 'mode': tmode}
+
+    def follow_kw(self, fs):
+        return '' if fs is None else ', follow_symlinks: %s' % ('true' if fs else 'false')
+
+    def exp_src(self, dest, f, fs, subname, tag, tag_known, mb):
+        """expectation for one file source: a link installed as a link, or a regular file (possibly a followed link)"""
+        if f.get('link') is not None and (fs is False or f.get('content') is None):
+            self.exp('link', dest, subname, tag, tag_known, target=f['link'])
+        else:
+            self.exp('file', dest, subname, tag, tag_known, digest=digest(f['content']), srcmode=f['mode'], mode=mb)
+
     def pick_dir(self):
         rng = self.rng
         if self.hostile and rng.random() < 0.6:
@@ -115,6 +143,10 @@ class ProjGen:
             if kind == 'data':
                 n = rng.choice([1, 1, 2, 3])
                 srcs = [self.new_file(rng.choice(['', '', 'sd']), sub=sub) for _ in range(n)]
+                fs = None
+                if rng.random() < 0.3:
+                    srcs.append(self.new_alias(srcs, sub))
+                    fs = rng.choice([None, True, False, False])
                 idir = self.pick_dir() if rng.random() < 0.85 else None
                 rename = None
                 if rng.random() < 0.35:
@@ -126,16 +158,19 @@ class ProjGen:
                     line += ', install_dir: %s' % mstr(idir)
                 if rename:
                     line += ', rename: [%s]' % ', '.join(mstr(r) for r in rename)
-                line += self.mode_kw(mode) + self.tag_kw(tag) + ')'
+                line += self.mode_kw(mode) + self.tag_kw(tag) + self.follow_kw(fs) + ')'
                 out.append(line)
                 base = idir if idir is not None else 'share/' + (subname or 'proj%d' % self.idx)
                 for j, (p, f) in enumerate(srcs):
                     dn = rename[j] if rename else os.path.basename(p)
-                    self.exp('file', base.rstrip('/') + '/' + dn if base else dn, subname, tag, tag is not None,
-                             digest=digest(f['content']), srcmode=f['mode'], mode=mb)
+                    self.exp_src(base.rstrip('/') + '/' + dn if base else dn, f, fs, subname, tag, tag is not None, mb)
             elif kind == 'headers':
                 n = rng.choice([1, 2])
                 srcs = [self.new_file(rng.choice(['', 'inc']), sub=sub) for _ in range(n)]
+                fs = None
+                if rng.random() < 0.25:
+                    srcs.append(self.new_alias(srcs, sub))
+                    fs = rng.choice([None, True, False, False])
                 line = 'install_headers(%s' % ', '.join(mstr(p) for p, _ in srcs)
                 r = rng.random()
                 if r < 0.4:
@@ -147,11 +182,10 @@ class ProjGen:
                     line += ', install_dir: %s' % mstr(base)
                 else:
                     base = 'include'
-                line += self.mode_kw(mode) + ')'
+                line += self.mode_kw(mode) + self.follow_kw(fs) + ')'
                 out.append(line)
                 for p, f in srcs:
-                    self.exp('file', base.rstrip('/') + '/' + os.path.basename(p), subname, 'devel', True,
-                             digest=digest(f['content']), srcmode=f['mode'], mode=mb)
+                    self.exp_src(base.rstrip('/') + '/' + os.path.basename(p), f, fs, subname, 'devel', True, mb)
             elif kind == 'man':
                 sec = rng.choice('1358')
                 nm = rng.choice(['tool', 'my tool', 'tü']) + str(len(self.files)) + '.' + sec
@@ -211,7 +245,8 @@ class ProjGen:
                     line += ', exclude_directories: [%s]' % ', '.join(mstr(x) for x in ed_w)
                 if strip:
                     line += ', strip_directory: true'
-                line += self.mode_kw(mode) + self.tag_kw(tag) + ')'
+                fs = rng.choice([None, None, True, False, False]) if any(t.get('link') is not None for t in tree) else None
+                line += self.mode_kw(mode) + self.tag_kw(tag) + self.follow_kw(fs) + ')'
                 out.append(line)
                 base = d.rstrip('/') if strip else d.rstrip('/') + '/' + top
                 self.exp('dir', base, subname, tag, tag is not None, mode=None, srcmode=None)
@@ -247,7 +282,7 @@ class ProjGen:
                         if t.get('dir'):
                             self.exp('dir', base + '/' + t['rel'], subname, None, False, mode=None, srcmode=t['mode'])
                         else:
-                            self.exp('file', base + '/' + t['rel'], subname, None, False, digest=digest(t['content']), srcmode=t['mode'], mode=None)
+                            self.exp_src(base + '/' + t['rel'], t, None, subname, None, False, None)
                     for x in ed2:
                         self.excluded_dirs.append(base + '/' + x)
 
@@ -263,8 +298,7 @@ class ProjGen:
                     if t.get('dir'):
                         self.exp('dir', base + '/' + t['rel'], subname, tag, tag is not None, mode=None, srcmode=t['mode'])
                     else:
-                        self.exp('file', base + '/' + t['rel'], subname, tag, tag is not None, digest=digest(t['content']),
-                                 srcmode=t['mode'], mode=mb)
+                        self.exp_src(base + '/' + t['rel'], t, fs, subname, tag, tag is not None, mb)
         return out
 
     def gen_tree(self, top, sub, like=None):
@@ -293,10 +327,25 @@ class ProjGen:
                 continue
             seen.add(rel)
             tree.append({'rel': rel, 'content': 'T%d-%s-%s' % (self.idx, top, rel), 'mode': rng.choice(SRC_MODES), 'mtime': rng.choice(MTIMES)})
+        regs = [t for t in tree if not t.get('dir')]
+        for _ in range(rng.choice([0, 0, 0, 1, 1, 2])):
+            parent = rng.choice(dirs)
+            rel = (parent + '/' if parent else '') + self.fresh('lnk')
+            sib = [t for t in regs if os.path.dirname(t['rel']) == parent]
+            r = rng.random()
+            if sib and r < 0.5:
+                tt = rng.choice(sib)
+                tree.append({'rel': rel, 'link': os.path.basename(tt['rel']), 'content': tt['content'], 'mode': tt['mode']})
+            elif r < 0.8:
+                tree.append({'rel': rel, 'link': '@ROOT@/' + self.SENTINEL['path'], 'content': self.SENTINEL['content'], 'mode': self.SENTINEL['mode']})
+            else:
+                tree.append({'rel': rel, 'link': rng.choice(['nowhere', '../gone', '@ROOT@/sentinel/none']), 'content': None, 'mode': 0})
         for t in tree:
             p = os.path.join(sub, top, t['rel']) if t['rel'] else os.path.join(sub, top)
             if t.get('dir'):
                 self.files.append({'path': p, 'dir': True, 'mode': t['mode']})
+            elif t.get('link') is not None:
+                self.files.append({'path': p, 'link': t['link']})
             else:
                 self.files.append({'path': p, 'content': t['content'], 'mode': t['mode'], 'mtime': t['mtime']})
         return tree
@@ -325,7 +374,8 @@ class ProjGen:
         for h in range(nhist):
             hists.append(self.history(h, subs, alltags))
         return {'idx': self.idx, 'files': self.files, 'prebuilt': self.prebuilt, 'setup_args': args, 'expect': self.expect,
-                'histories': hists, 'hostile': self.hostile, 'subprojects': subs, 'excluded_dirs': self.excluded_dirs}
+                'histories': hists, 'hostile': self.hostile, 'subprojects': subs, 'excluded_dirs': self.excluded_dirs,
+                'root_files': [dict(self.SENTINEL)]}
 
     def inst(self, **kw):
         d = {'op': 'install'}
@@ -512,6 +562,26 @@ def corpus_projects():
                             dict(b7, kind='dir', dest='share/r/ex/deep', mode=None, srcmode=None)],
                     [{'steps': [{'op': 'install'}, {'op': 'install'}, {'op': 'uninstall'}]},
                      {'pre': [{'path': '@PFX@/share/r/ex/deep', 'dir': True, 'mode': 0o755}], 'steps': [{'op': 'install'}, {'op': 'uninstall'}]}]))
+    # 8: sources that are symbolic links, installed as links: the mode of what they point to (inside the installed
+    #    tree, or a sentinel outside DESTDIR and outside the source tree) must not change
+    t8 = [{'path': 'real.txt', 'content': 'REAL', 'mode': 0o644, 'mtime': 1500000000}, {'path': 'alias.txt', 'link': 'real.txt'},
+          {'path': 'k', 'dir': True, 'mode': 0o755}, {'path': 'k/f', 'content': 'F', 'mode': 0o600, 'mtime': 1400000000},
+          {'path': 'k/to-f', 'link': 'f'}, {'path': 'k/out', 'link': '@ROOT@/sentinel/secret.txt'}, {'path': 'k/dang', 'link': 'nowhere'}]
+    b8 = dict(sub='', tag=None, tag_known=False)
+    p8 = proj(9008, "install_data('real.txt', 'alias.txt', install_dir: 'share/p', follow_symlinks: false)\n"
+                    "install_subdir('k', install_dir: 'share/q', follow_symlinks: false)\n"
+                    "install_data('alias.txt', install_dir: 'share/followed', follow_symlinks: true, install_mode: 'rw-r-----')",
+              t8, [dict(b8, kind='file', dest='share/p/real.txt', digest=digest('REAL'), srcmode=0o644, mode=None),
+                   dict(b8, kind='link', dest='share/p/alias.txt', target='real.txt'),
+                   dict(b8, kind='dir', dest='share/q/k', mode=None, srcmode=None),
+                   dict(b8, kind='file', dest='share/q/k/f', digest=digest('F'), srcmode=0o600, mode=None),
+                   dict(b8, kind='link', dest='share/q/k/to-f', target='f'), dict(b8, kind='link', dest='share/q/k/out', target='@ROOT@/sentinel/secret.txt'),
+                   dict(b8, kind='link', dest='share/q/k/dang', target='nowhere'),
+                   dict(b8, kind='file', dest='share/followed/alias.txt', digest=digest('REAL'), srcmode=0o644, mode=0o640)],
+              [{'steps': [{'op': 'install'}, {'op': 'install'}, {'op': 'uninstall'}]}, {'steps': [{'op': 'install', 'only_changed': True}, {'op': 'install', 'only_changed': True}]}],
+              args=['--prefix=@ROOT@/pfx', '-Dinstall_umask=022'])
+    p8['root_files'] = [dict(ProjGen.SENTINEL)]
+    out.append(p8)
     return out
 
 
